@@ -156,13 +156,13 @@ func (l *Log) Replay() error {
 	return nil
 }
 
-func (l *Log) Close() error                             { return l.inner.Close() }
+func (l *Log) Close() error                              { return l.inner.Close() }
 func (l *Log) GetEntry(i uint64) (*raft.LogEntry, error) { return l.inner.GetEntry(i) }
-func (l *Log) Contains(i uint64) bool                   { return l.inner.Contains(i) }
-func (l *Log) LastIndex() uint64                        { return l.inner.LastIndex() }
-func (l *Log) LastTerm() uint64                         { return l.inner.LastTerm() }
-func (l *Log) NextIndex() uint64                        { return l.inner.NextIndex() }
-func (l *Log) Size() int                                { return l.inner.Size() }
+func (l *Log) Contains(i uint64) bool                    { return l.inner.Contains(i) }
+func (l *Log) LastIndex() uint64                         { return l.inner.LastIndex() }
+func (l *Log) LastTerm() uint64                          { return l.inner.LastTerm() }
+func (l *Log) NextIndex() uint64                         { return l.inner.NextIndex() }
+func (l *Log) Size() int                                 { return l.inner.Size() }
 
 func (l *Log) AppendEntry(e *raft.LogEntry) error { return l.append([]*raft.LogEntry{e}, true) }
 func (l *Log) AppendEntries(es []*raft.LogEntry) error {
@@ -492,15 +492,15 @@ type Resp struct {
 
 // FSMOpts configures delays and snapshot behaviour.
 type FSMOpts struct {
-	SnapThreshold  int // NeedSnapshot when log size >= threshold (0 = never)
-	Pad            int // padding bytes in snapshots
-	Opaque         bool // write 0-byte snapshots
-	ApplyPreUs     int // random delay before taking the FSM lock in Apply (max, microseconds)
-	ApplyInUs      int // random delay inside the critical section
-	SnapUs         int // delay inside Snapshot (inside the critical section)
-	SnapPreUs      int
-	RestoreUs      int
-	Seed           int64
+	SnapThreshold int  // NeedSnapshot when log size >= threshold (0 = never)
+	Pad           int  // padding bytes in snapshots
+	Opaque        bool // write 0-byte snapshots
+	ApplyPreUs    int  // random delay before taking the FSM lock in Apply (max, microseconds)
+	ApplyInUs     int  // random delay inside the critical section
+	SnapUs        int  // delay inside Snapshot (inside the critical section)
+	SnapPreUs     int
+	RestoreUs     int
+	Seed          int64
 }
 
 var fsmIDs int64
